@@ -69,6 +69,11 @@ class RemoveEntityGuard(Contract):
         ctx.oblige("a-protected-entity-is-never-removed", bool(e["allow"]) is True, note=f"delete permission {e['allow']!r} ({type(e['allow']).__name__})")
         acted = [k for k in ev if k in ("remove_recursively", "concatenator.remove_entity", "concatenator.remove_children", "parent.remove_children", "io")]
         ctx.oblige("a-removal-request-acts-on-the-entity", bool(acted))
+        # Concatenator.remove_entity edits the stored records only; the child list is edited by the holder's remove_children
+        # (the hole for data and property groups, the drillhole group for holes) -- the request has to enter there
+        want = {"concatenated-data": "parent.remove_children", "concatenated-property-group": "parent.remove_children", "concatenated-hole": "concatenator.remove_children"}.get(e["kind"], "remove_recursively")
+        if bool(e["allow"]) is True:
+            ctx.oblige("the-removal-enters-through-the-holder-of-the-child-list", bool(acted) and acted[0] == want, note=f"a {e['kind']} was removed through {acted[:1]}; its parent's child list is edited by {want}")
 
     def post_raises(self, ctx, sig):
         e = ctx.env
